@@ -50,8 +50,8 @@ def statement_nodes(psyir):
     from psyclone.psyir import nodes as N
     out = []
     for n in psyir.walk((N.Assignment, N.IfBlock, N.Loop, N.Call, N.WhileLoop, N.Return, N.CodeBlock)):
-        if isinstance(n, N.Call) and not isinstance(n.parent, N.Schedule):
-            continue
+        if isinstance(n, (N.Call, N.CodeBlock)) and not isinstance(n.parent, N.Schedule):
+            continue      # function calls / expression CodeBlocks are parts of statements
         if n.ancestor(N.Routine) is None:
             continue
         out.append(n)
